@@ -78,8 +78,11 @@ func workerMain(args []string) {
 	engine.StartStallMonitor(func() {
 		fmt.Fprintf(os.Stdout, "STALL %d\n", current.Load())
 		os.Exit(4)
-	}, func() {
-		fmt.Fprintf(os.Stdout, "UNBOUNDED-WAIT %d\n", current.Load())
+	}, func(solo bool) {
+		fmt.Fprintf(os.Stdout, "UNBOUNDED-WAIT %d solo=%v\n", current.Load(), solo)
+		if solo {
+			os.Exit(6)
+		}
 		os.Exit(5)
 	})
 	for run := *from; run < *to; run += *stride {
@@ -148,8 +151,11 @@ func execMain(args []string) {
 	engine.StartStallMonitor(func() {
 		fmt.Printf("STALL %d\n", p.Run)
 		os.Exit(4)
-	}, func() {
-		fmt.Printf("UNBOUNDED-WAIT %d\n", p.Run)
+	}, func(solo bool) {
+		fmt.Printf("UNBOUNDED-WAIT %d solo=%v\n", p.Run, solo)
+		if solo {
+			os.Exit(6)
+		}
 		os.Exit(5)
 	})
 	fmt.Printf("BEGIN %d\n", p.Run)
